@@ -48,12 +48,21 @@ func hasUnsync(e *core.Entry) bool {
 	return false
 }
 
-func runCase(c Case) (string, bool, []string) {
+func runCase(c Case, slim bool) (string, bool, []string) {
 	anc, alpha, beta := coretree.FromJ(c.Anc), coretree.FromJ(c.Alpha), coretree.FromJ(c.Beta)
 	ancCh, alphaCh, betaCh, conflicts := core.Reconcile(anc, alpha, beta, core.SynchronizationMode(c.Mode))
 	coq := fmt.Sprintf("(%s, %s, %s, %s, mkplan %s %s %s %s)", modeNames[c.Mode],
 		coretree.Entry(anc), coretree.Entry(alpha), coretree.Entry(beta),
 		coretree.Changes(ancCh), coretree.Changes(alphaCh), coretree.Changes(betaCh), coretree.Conflicts(conflicts))
+	if slim {
+		// C06: also emit the reported form, Slim() of every conflict, in the
+		// order of the plan's conflicts; the case becomes (rcase, [conflict]).
+		reported := make([]*core.Conflict, len(conflicts))
+		for i, cf := range conflicts {
+			reported[i] = cf.Slim()
+		}
+		coq = "(" + coq + ", " + coretree.Conflicts(reported) + ")"
+	}
 	tags := []string{"mode:" + modeNames[c.Mode]}
 	if len(alphaCh) > 0 {
 		tags = append(tags, "out:alpha-changes")
@@ -79,14 +88,22 @@ const header = "From Coq Require Import List String.\nImport ListNotations.\nOpe
 
 func main() {
 	fn := flag.String("fn", "rc_failures", "Coq failure function to apply")
+	slim := flag.Bool("slim", false, "also emit Slim() of every conflict: cases have Coq type rscase = (rcase * list conflict), defined in Harness.C06H")
 	imp := flag.String("import", "", "extra Coq modules (under Mv) to import, space separated, e.g. Harness.C06H")
 	cfg := hx.Parse()
 	hdr := header
 	if *imp != "" {
 		hdr += "\nFrom Mv Require Import " + *imp + "."
 	}
-	w := hx.NewWriter(cfg, hdr, "rcase", *fn, 250)
+	caseType := "rcase"
+	if *slim {
+		caseType = "rscase"
+	}
+	w := hx.NewWriter(cfg, hdr, caseType, *fn, 250)
 	w.Rule = "a case = (mode, ancestor, alpha, beta, plan returned by core.Reconcile); distinct = distinct Coq terms; non-trivial = the plan contains at least one alpha/beta change or conflict"
+	if *slim {
+		w.Rule += "; with -slim each case also carries Conflict.Slim() of every conflict of the plan (the reported form)"
+	}
 	add := func(c Case, origin string) {
 		if w.Aborted {
 			return
@@ -94,7 +111,7 @@ func main() {
 		var coq string
 		var nt bool
 		var tags []string
-		if w.Guard(c, 5*time.Second, func() { coq, nt, tags = runCase(c) }) {
+		if w.Guard(c, 5*time.Second, func() { coq, nt, tags = runCase(c, *slim) }) {
 			w.Add(hx.Case{Coq: coq, Replay: c, Nontrivial: nt, Tags: tags, Origin: origin})
 		}
 	}
